@@ -35,6 +35,9 @@ CHECKS.update({
 CHECKS.update({
     "C11": ("exploration", "Diag.tla (transcribed position arithmetic, all texts <=5 chars) model-checked by TLC + token-level / line-ending-level mutants of valid and invalid programs through the real CLI, outcomes validated by DiagTrace (TLC)", "the input space is all UTF-8 text: exploration; stderr parsed by line patterns", "3 C11"),
 })
+CHECKS.update({
+    "C10": ("exploration", "Lang.tla reference static semantics: TLC enumerates all two-statement rules of the fragment with their verdict; a stratified sample is given to the real CLI and LangTrace (TLC) recomputes Errors(prog) and compares accept/reject, class and line; planted symbol-level single-defect mutants; corpus as positive side", "fragment: flat rules over a fixed signature (no branch/match in the enumerated part); classes recognised by message text", "3 C10"),
+})
 NOT_YET = {
 }
 NA = {
